@@ -41,8 +41,13 @@ def report(pid, tier, seed, verdict, vecs_n, gen, extra_cov, assumptions, t0, tr
             continue
         seen.add(sig)
         if lines is None:
-            lines = open(trace).readlines()
-        ln = lines[b["l"] - 1] if 0 < b["l"] <= len(lines) else ""
+            lines = {}
+            for x in open(trace):
+                try:
+                    lines[json.loads(x).get("id")] = x
+                except ValueError:
+                    pass
+        ln = lines.get(b["i"], "")
         d = vlib.save_replay(pid, "vec-%s-%d" % (b["i"], seed), {"kind": kind + "\n", "script.ndjson": ln,
                              "trace.ndjson": ln, "violation.json": json.dumps({"property": pid, "clauses": b["ids"], "vector": b["i"]}, indent=1)})
         print("VIOLATION property=%s replay=%s" % (pid, d))
